@@ -2,10 +2,12 @@
 import json
 import os
 import re
+import resource
 import shlex
 import shutil
 import subprocess
 import tempfile
+import threading
 import time
 
 VERIF = os.path.dirname(os.path.dirname(os.path.abspath(__file__)))
@@ -37,18 +39,62 @@ def offline_env(extra=None):
     return env
 
 
+# Processes the memory cap of run() applies to: the back-end solvers, never the driver (cargo / kani-driver).
+# kani-driver keeps the parsed CBMC output of every harness of a batch in memory (measured: 8 GB resident after the
+# 12 harnesses of C17, while no CBMC exceeded 5.7 GB), so an RLIMIT_AS inherited from the driver made the driver
+# itself die with "memory allocation of N bytes failed" near the end of a long batch, and every harness still running
+# lost its verdict (undecided, exit 2, on an unchanged tree).
+_CAPPED_COMMS = ("cbmc", "goto-instrument", "goto-synthesizer", "kissat", "z3", "cvc5")
+
+
+def _cap_session(sid, limit, seen):
+    """Set RLIMIT_AS = limit on every solver process of session `sid` not yet in `seen`."""
+    try:
+        pids = [d for d in os.listdir("/proc") if d.isdigit()]
+    except OSError:
+        return
+    for d in pids:
+        pid = int(d)
+        if pid in seen:
+            continue
+        try:
+            with open("/proc/%s/stat" % d) as f:
+                st = f.read()
+        except OSError:
+            continue
+        l, r = st.find("("), st.rfind(")")
+        if l < 0 or r < 0:
+            continue
+        rest = st[r + 2:].split()
+        if len(rest) < 4 or int(rest[3]) != sid or st[l + 1:r] not in _CAPPED_COMMS:
+            continue
+        try:
+            resource.prlimit(pid, resource.RLIMIT_AS, (limit, limit))
+            seen.add(pid)
+        except (OSError, ValueError):
+            pass
+
+
 def run(cmd, cwd=None, env=None, timeout=None, mem_gb=None):
-    """Run a command, return (rc, output, seconds, timed_out). Output is stdout+stderr merged."""
+    """Run a command, return (rc, output, seconds, timed_out). Output is stdout+stderr merged.
+    mem_gb caps the address space of each solver process (see _CAPPED_COMMS) the command spawns."""
     if isinstance(cmd, str):
         cmd = shlex.split(cmd)
-    if mem_gb:
-        cmd = ["prlimit", "--as=%d" % int(mem_gb * (1 << 30))] + cmd
     t0 = time.time()
     try:
         p = subprocess.Popen(cmd, cwd=cwd, env=env or offline_env(), stdout=subprocess.PIPE,
                              stderr=subprocess.STDOUT, start_new_session=True)
     except OSError as e:
         return 127, str(e), 0.0, False
+    stop = threading.Event()
+    if mem_gb:
+        limit, seen = int(mem_gb * (1 << 30)), set()
+
+        def watch():
+            while not stop.is_set():
+                _cap_session(p.pid, limit, seen)
+                stop.wait(0.25)
+        threading.Thread(target=watch, daemon=True).start()
     timed_out = False
     try:
         out, _ = p.communicate(timeout=timeout)
@@ -59,6 +105,8 @@ def run(cmd, cwd=None, env=None, timeout=None, mem_gb=None):
         except OSError:
             pass
         out, _ = p.communicate()
+    finally:
+        stop.set()
     return p.returncode, out.decode("utf-8", "replace"), time.time() - t0, timed_out
 
 
